@@ -20,6 +20,10 @@ package marbl
 //@   modifies nFull, fullBuf
 //@   noframe
 //@   ensures[every-part-of-a-returned-frame-was-read-completely] result1 == nil ==> nFull == old(nFull) + 3
+// the bytes a returned frame refers to live in a buffer allocated for that frame: a later ReadFrame cannot change a
+// frame that was handed out earlier (no buffer of the Reader is reused for payloads)
+//@   at call 2 of ReadFull before assert[header-payload-buffer-is-allocated-for-this-frame] fresh(arg1)
+//@   at call 4 of ReadFull before assert[data-payload-buffer-is-allocated-for-this-frame] fresh(arg1)
 
 // ---------------------------------------------------------------------------------------------
 // C19 / C15: frame encoders. nFrames counts the frames handed to the writer goroutine (one channel send each); the
@@ -119,6 +123,7 @@ package marbl
 //@   ensures[only-the-body-handle-is-replaced] typeis(req.Body, *bodyLogger) && as(req.Body, *bodyLogger).body == old(req.Body) && as(req.Body, *bodyLogger).index == 0 &&
 //@        as(req.Body, *bodyLogger).s == s && as(req.Body, *bodyLogger).id == id && as(req.Body, *bodyLogger).mt == Request
 //@   ensures[pseudo-headers-first] nFrames >= old(nFrames) + 8 && result == nil
+//@   at call all of sendHeader before assert[every-header-frame-of-a-request-is-typed-request] arg1 == Request
 //@   at call 0 of Map after set hdrFrames0 = hdrFrames
 //@   at call 9 of sendHeader before set hdrFrames = upd(hdrFrames, arg2, hdrFrames[arg2] + 1)
 //@   ensures[one-header-frame-per-header-value] forall q string :: has(hdrMap, q) ==> hdrFrames[q] - hdrFrames0[q] == len(hdrMap[q])
@@ -134,6 +139,7 @@ package marbl
 //@   ensures[only-the-body-handle-is-replaced] typeis(res.Body, *bodyLogger) && as(res.Body, *bodyLogger).body == old(res.Body) && as(res.Body, *bodyLogger).index == 0 &&
 //@        as(res.Body, *bodyLogger).s == s && as(res.Body, *bodyLogger).id == id && as(res.Body, *bodyLogger).mt == Response
 //@   ensures[pseudo-headers-first] nFrames >= old(nFrames) + 4 && result == nil
+//@   at call all of sendHeader before assert[every-header-frame-of-a-response-is-typed-response] arg1 == Response
 //@   at call 0 of Map after set hdrFrames0 = hdrFrames
 //@   at call 5 of sendHeader before set hdrFrames = upd(hdrFrames, arg2, hdrFrames[arg2] + 1)
 //@   ensures[one-header-frame-per-header-value] forall q string :: has(hdrMap, q) ==> hdrFrames[q] - hdrFrames0[q] == len(hdrMap[q])
